@@ -23,7 +23,7 @@ def diff(exp, got, path=""):
             d = diff(a, b, "%s/%s%d" % (path, ke, i))
             if d:
                 return d
-        return (path, summary(exp), summary(got))
+        return None
     if ke == "D":
         if len(exp[1]) != len(got[1]):
             return (path, "D[len %d]" % len(exp[1]), "D[len %d]" % len(got[1]))
@@ -31,7 +31,7 @@ def diff(exp, got, path=""):
             d = diff(a[0], b[0], "%s/Dk%d" % (path, i)) or diff(a[1], b[1], "%s/Dv%d" % (path, i))
             if d:
                 return d
-        return (path, summary(exp), summary(got))
+        return None
     if ke == "C":
         fe, fg = exp[1], got[1]
         for f in sorted(set(fe) | set(fg)):
@@ -44,7 +44,7 @@ def diff(exp, got, path=""):
             d = diff(fe[f], fg[f], path + "/" + f)
             if d:
                 return d
-        return (path, "C", "C")
+        return None
     return (path, summary(exp), summary(got))
 
 
